@@ -168,6 +168,65 @@ func ZZC14FreeNames() {
 	}
 }
 
+// ZZC14FreeNamesRuntime: at run time a name is its channel, not its spelling: two occurrences
+// spelled alike but bound to different channels are two free names, and one channel under two
+// spellings is one. (The duplication and drop protocols are driven by FreeNames.)
+func ZZC14FreeNamesRuntime() {
+	w := &zzSubWorld{}
+	w.chans[1] = make(chan Message, 1)
+	w.chans[2] = make(chan Message, 1)
+	subj := w.gen(true)
+	b1, b2 := w.gen(false), w.gen(false)
+	u1, u2, u3 := w.gen(true), w.gen(true), w.gen(true)
+	u1.self = vn.Bool()
+	inner := NewSend(w.name(u1), w.name(u2), w.name(u3))
+	kind := vn.Pick(4)
+	var f Form
+	bound := func(n zzSN) bool { return false }
+	uninit := func(n zzSN) bool { return n.ch == 0 }
+	switch kind {
+	case 0:
+		f = NewReceive(w.name(b1), w.name(b2), w.name(subj), inner)
+		bound = func(n zzSN) bool { return uninit(n) && vn.Or(n.idx == b1.idx, n.idx == b2.idx) }
+	case 1:
+		f = NewCase(w.name(subj), []*BranchForm{NewBranch(Label{L: "l"}, w.name(b1), inner)})
+		bound = func(n zzSN) bool { return uninit(n) && n.idx == b1.idx }
+	case 2:
+		f = NewSplit(w.name(b1), w.name(b2), w.name(subj), inner)
+		bound = func(n zzSN) bool { return uninit(n) && vn.Or(n.idx == b1.idx, n.idx == b2.idx) }
+	default:
+		f = NewWait(w.name(subj), inner)
+	}
+	fn := f.FreeNames()
+	occ := []zzSN{subj, u1, u2, u3}
+	// every channel that occurs free is reported exactly once
+	for c := 1; c <= 2; c++ {
+		want := false
+		for _, o := range occ {
+			want = want || (!o.self && o.ch == c)
+		}
+		n := 0
+		for _, g := range fn {
+			if !g.IsSelf && g.Channel == w.chans[c] {
+				n++
+			}
+		}
+		vn.Assert("C14.free-channels-exact", (want && n == 1) || (!want && n == 0))
+	}
+	// uninitialised names: by spelling, unless captured
+	for i := range zzSubIds {
+		want := vn.And(subj.ch == 0, subj.idx == i) // the subject is outside the binders' scope
+		for _, o := range occ[1:] {
+			want = vn.Or(want, vn.And(vn.And(!o.self && o.ch == 0, o.idx == i), vn.Not(bound(o))))
+		}
+		got := false
+		for _, g := range fn {
+			got = vn.Or(got, vn.And(!g.IsSelf && g.Channel == nil, vn.EqS(g.Ident, zzSubIds[i])))
+		}
+		vn.Assert("C14.free-names-exact", got == want)
+	}
+}
+
 // ZZC14Copy: CopyForm yields an equal term that shares no name cell with the original.
 func ZZC14Copy() {
 	w := &zzSubWorld{}
@@ -204,6 +263,7 @@ func ZZC14Copy() {
 func init() {
 	vn.Register("process.ZZC14Subst", ZZC14Subst)
 	vn.Register("process.ZZC14FreeNames", ZZC14FreeNames)
+	vn.Register("process.ZZC14FreeNamesRuntime", ZZC14FreeNamesRuntime)
 	vn.Register("process.ZZC14Copy", ZZC14Copy)
 }
 
